@@ -146,6 +146,12 @@ pub fn run<T: Elt>(kind: &str, a: &mut Args, out: &mut Out) {
             let mut m2 = m.clone(); let y = m2.solve_lu(&b);
             if !same_v(&b, &bs) { panic!("harness: operand mutated by solve"); }
             out.v(&x); out.v(&y); }
+        // the constructors (round four): Matrix::new(r, c, x) with an arbitrary fill value, Matrix::empty()
+        "mat.ctor" => { let (r, c) = (a.usize(), a.usize()); let x = a.s::<T>();
+            let m = Matrix::<T>::new(r, c, x);
+            out.m(&m); out.usize(m.numel()); out.boolean(m == rebuild(&m) || x != x);
+            let e = Matrix::<T>::empty();
+            out.m(&e); out.usize(e.numel()); out.boolean(e == Matrix::<T>::new(0, 0, x)); }
         "mat.lu" => { let mut m = a.m::<T>(); let (p, perm) = m.lu_decomp_in_place(); out.usize(p); out.m(&perm); out.m(&m); }
         "mat.det" => { let m = a.m::<T>(); let snap = m.clone(); let d = m.determinant(); check_same(&m, &snap, "determinant"); out.s(&d); }
         "mat.inverse" => { let m = a.m::<T>(); let snap = m.clone(); let inv = m.inverse(); check_same(&m, &snap, "inverse"); out.m(&inv); }
